@@ -113,6 +113,15 @@ def cases(tier, seed):
     for paired in (True, False):
         out.append({'n': 5, 'nx': 4, 'ny': 4, 'tail': 'both', 'paired': paired, 'ds': seed + 77, 'edges': [(0, 1, 1), (1, 2, 1), (2, 3, 1)], 'effect': 4.0,
                     'k': 9000 if thorough else 4400, 'thr': 1.5, 'rs': seed * 100 + 77, 'const': None, 'const_same': True, 'scales': False})
+    # 13-15 nodes, a threshold that leaves about one connection per node: relabellings whose suprathreshold graph has
+    # several components of comparable size (a small dense one beside a larger sparse one: most nodes != most links)
+    # (simulated rate of "most nodes != most links": about 1e-3 per relabelling at 15 nodes with one connection in ten
+    #  suprathreshold, 0 below 10 nodes -- hence ~10 000 relabellings here)
+    for t in range(24 if thorough else 8):
+        # (8 + 8 subjects: 12 870 distinct splits; with 4 + 4 there are only 70 and a thousand relabellings explore nothing new)
+        out.append({'n': 15, 'nx': 8, 'ny': 8, 'tail': ['both', 'right', 'left'][t % 3], 'paired': False, 'ds': seed * 31 + t,
+                    'edges': [(0, 1, 1), (1, 2, 1), (2, 3, 1)], 'effect': 3.0, 'k': 2500 if thorough else 1200,
+                    'thr': [1.76, 1.345, 1.345][t % 3], 'rs': seed * 100 + 50 + t, 'const': None, 'const_same': True, 'scales': False})
     return out
 
 
